@@ -30,6 +30,14 @@ THEOREMS = [
     "C05_key_current_witness",
     "C05_tree_current_not_transparent",
     "C05_key_shallow_witness",
+    "C05_tree_transparent_now",
+    "C05_forest_child_run",
+    "C05_forest_transparent",
+    "C05_forest_edit_at_depth",
+    "C05_forest_edits_harmless",
+    "C05_forest_setin_root",
+    "C05_fetch_transparent",
+    "C05_fetch_current_witness",
 ]
 RULE = (
     "twin histories: (node) every history up to length L over {set v, run, submit, complete, clearFailed, cancel, "
@@ -55,6 +63,11 @@ TRUSTED = [
     "recorded in the model key although the code's key leaves them to the macro class; signal connections and "
     "starting nodes are not modelled: a composite run is dataflow evaluation (what C01 proves of the scheduler), so "
     "the generator only rewires compatibly with a macro's fixed execution order",
+    "model CacheForest (every node with its own cache) runs children on demand; the code runs them in the scheduler's "
+    "topological order — the same state results because a sibling demanded twice answers from its own cache; which "
+    "function nodes executed is compared with the call log of the live graph after every run",
+    "model CacheFetch (values held by connected inputs, KF-C05-7) is flat and in execution order; it is tied to the code "
+    "only through the witness history replayed in the corpus and the oracle on the flat workflow cases",
     "the harness reads the initial structure of a built graph off the live objects (labels, classes, connections, "
     "links) and renders the live key tuple in the model's syntax",
 ]
@@ -98,7 +111,7 @@ def _gen_tree_ops(rng, n):
         elif r < 0.85:
             e = ["pickle"]
         elif r < 0.93:
-            e = ["exec", k, rng.choice(["ctl", "ctl", "none"])]
+            e = ["exec", k, rng.choice(["ctl", "ctl-pickle", "ctl-cloudpickle", "none"])]
         else:
             e = None
         if e is not None:
@@ -157,6 +170,11 @@ def gen_cases(rng, tier):
             else:
                 ops.append(["pickle"])
         yield {"kind": "wf", "ops": ops, "macro": rng.random() < 0.3}
+    # the `use_cache` switch through the node factories: ask for the other setting than an earlier call
+    for fac in ("inputs_to_list", "list_to_outputs", "inputs_to_dict", "inputs_to_dataframe", "dataclass_node",
+                "function_node", "for_node", "macro_node"):
+        for n in range(2, 4 if tier == "quick" else 8):
+            yield {"kind": "switch", "factory": fac, "n": n}
     # nested composites: every kind of edit at every depth
     shapes = _tree_shapes()
     for i, sh in enumerate(shapes):
@@ -165,7 +183,7 @@ def gen_cases(rng, tier):
             for sel in range(6 if tier == "quick" else 16):
                 e = {"setin": ["setin", sel, 4], "rewire": ["rewire", sel], "replace": ["replace", sel, 15],
                      "add": ["add", sel, 25], "remove": ["remove", sel],
-                     "exec": ["exec", sel, "ctl"]}[kind]
+                     "exec": ["exec", sel, ("ctl", "ctl-pickle", "ctl-cloudpickle")[sel % 3]]}[kind]
                 yield {"kind": "tree", "shape": sh, "ops": [["run"], ["run"], e, ["run"], ["run"]], "bydepth": True}
     for _ in range(150 if tier == "quick" else 3000):
         yield {"kind": "tree", "shape": rng.choice(shapes), "ops": _gen_tree_ops(rng, rng.randint(2, 8))}
@@ -187,6 +205,8 @@ def corpus():
     yield {"kind": "node", "ops": ["set2", "run", "set6", "run", "clearfailed", "run", "submit"]}
     yield {"kind": "wf", "ops": [["run"], ["rewire", 2, "a", 0], ["run"]], "macro": False}
     yield {"kind": "wf", "ops": [["run"], ["setinner", 1, "a", "y"], ["run"]], "macro": False}
+    yield {"kind": "switch", "factory": "inputs_to_list", "n": 3}  # KF-C05-8
+    yield {"kind": "switch", "factory": "dataclass_node", "n": 2}
     # a value assigned to a CONNECTED input survives a cache hit (no fetch) and takes effect after a disconnect (KF-C05-7)
     yield {"kind": "wf", "ops": [["run"], ["setinner", 1, "a", "x"], ["run"], ["remove", 0], ["run"]], "macro": False}
     sh = _tree_shapes()
@@ -684,6 +704,8 @@ def _resolve(host, op):
                     if not ch.connected and (is_root or _link_index(comp, ch) is None) and _code(ch.value) is not None:
                         cands.append(["setin", path, c.label, ch.label, op[2]])
             elif kind == "rewire":
+                if not is_root and c.label not in getattr(comp, "_c05_order", []):
+                    continue  # a child added to a macro runs right after the sibling it was wired to: left as it is
                 for ch in c.inputs:
                     if not is_root and _link_index(comp, ch) is not None:
                         continue
@@ -758,6 +780,12 @@ def _apply_tree(host, op, use_cache, sched=None):
             comp.add_child(n)
             if op[4] is not None:
                 n.inputs.a.connect(comp.children[op[4]].outputs.o)
+            if op[1]:
+                # a macro does not re-derive its execution flow: the user wires the new child into it
+                if op[4] is not None:
+                    n.signals.input.run.connect(comp.children[op[4]].signals.output.ran)
+                else:
+                    comp.starting_nodes.append(n)
             return "unit", host
         if op[0] == "pickle":
             h2 = pickle.loads(pickle.dumps(host))
@@ -838,6 +866,7 @@ def _run_tree_case(case):
             n0 = len(nodes.CALL_LOG)
             ra = _run_tree(a, sa)
             calls = len(nodes.CALL_LOG) - n0
+            executed = sorted(f"f{e[0]}(" + ",".join(_term(x) for x in e[1:]) + ")" for e in nodes.CALL_LOG[n0:])
             rb = _run_tree(b, sb)
             hits += int(hit)
             rows.append({"op": ["run"], "resolved": ["run"], "c": ra, "u": rb, "vc": _outs(a), "vu": _outs(b),
@@ -852,6 +881,8 @@ def _run_tree_case(case):
             elif ra.startswith("ret:") and rb.startswith("ret:"):
                 obs.append(f"hit={str(hit).lower()} c={_outs(a)} u={_outs(b)}")
                 obs.append(f"key {key}")
+                # the whole tree of caches: which function nodes executed in the cached graph (the rest hit a cache)
+                obs.append(f"F hit={str(hit).lower()} c={_outs(a)} calls={','.join(executed)}")
             else:
                 obs.append("exc")
             continue
@@ -891,7 +922,51 @@ def _run_tree_case(case):
                       **depth_hist}}
 
 
+def _switch_fn(x="d"):
+    y = x
+    return y
+
+
+def _switch_macro(self, x="d"):
+    from . import nodes
+
+    self.n0 = nodes.F0(a=x)
+    return self.n0
+
+
+def _run_switch_case(case):
+    """make a node through a factory with the default, then ask the same factory for `use_cache=False` (the graph
+    and its cache-free twin are built exactly like this) and look at the switch and at what a second run does"""
+    import pyiron_workflow as pw
+    from pyiron_workflow.nodes import transform as tr
+
+    from . import nodes, nodes_c05 as nc
+
+    fac, n = case["factory"], case["n"]
+    mk = {
+        "inputs_to_list": lambda **kw: tr.inputs_to_list(n, **kw),
+        "list_to_outputs": lambda **kw: tr.list_to_outputs(n, **kw),
+        "inputs_to_dict": lambda **kw: tr.inputs_to_dict([f"k{i}" for i in range(n)], **kw),
+        "inputs_to_dataframe": lambda **kw: tr.inputs_to_dataframe(n, **kw),
+        "dataclass_node": lambda **kw: tr.dataclass_node(getattr(nc, f"DC{n}"), **kw),
+        "function_node": lambda **kw: pw.function_node(_switch_fn, **kw),
+        "for_node": lambda **kw: pw.for_node(nodes.F0, iter_on=("a",), **kw),
+        "macro_node": lambda **kw: pw.macro_node(_switch_macro, output_labels="o", **kw),
+    }[fac]
+    rows = []
+    try:
+        a = mk()
+        b = mk(use_cache=False)
+        rows.append({"op": "make", "c": f"use_cache={a.use_cache}", "u": f"use_cache={b.use_cache}",
+                     "vc": "", "vu": "", "asked": [True, False]})
+    except Exception as e:  # noqa: BLE001
+        rows.append({"op": "make", "c": f"exc:{type(e).__name__}", "u": "", "vc": "", "vu": "", "asked": None})
+    return {"obs": [], "rows": rows, "hits": 0, "special": 0, "stats": {"switch_cases": 1, "switch_" + fac: 1}}
+
+
 def run_impl(case):
+    if case["kind"] == "switch":
+        return _run_switch_case(case)
     if case["kind"] == "node":
         return _run_node_case(case)
     if case["kind"] == "tree":
@@ -907,6 +982,8 @@ def nontrivial(case, impl):
 
 
 def model_input(case, impl):
+    if case["kind"] == "switch":
+        return []
     if case["kind"] == "tree":
         return list(impl.get("mlines", []))
     if case["kind"] != "node":
@@ -951,6 +1028,8 @@ def diff(case, impl, model):
                     out.append(l[len(tag) + 1:])
                 elif l.startswith(tag + "key "):
                     out.append("key " + l[len(tag) + 4:])
+                elif l.startswith("F "):
+                    out.append(l)
             variants[tag] = out
         if any(l == "bad-op" for l in model):
             return {"index": 0, "impl": "<ops>", "model": "bad-op", "variant": "-"}
@@ -976,6 +1055,19 @@ def diff(case, impl, model):
 
 def oracle(case, impl):
     fails = []
+    if case["kind"] == "switch":
+        r = impl["rows"][0]
+        if r.get("asked") and (r["c"], r["u"]) != ("use_cache=True", "use_cache=False"):
+            # "with caching switched off" must be obtainable: the twin asked for use_cache=False has to have it off
+            fails.append({"clause": "use-cache-switch-ignored",
+                          "detail": f"{case['factory']}({case['n']}): default gives {r['c']}, use_cache=False gives {r['u']}",
+                          "signature": {"clause": "use-cache-switch", "kind": "switch",
+                                        "trigger": "transformer-factory" if case["factory"] in
+                                        ("inputs_to_list", "list_to_outputs", "inputs_to_dict", "inputs_to_dataframe",
+                                         "dataclass_node") else case["factory"]}})
+        elif not r.get("asked"):
+            fails.append({"clause": "harness-error", "detail": r["c"], "signature": {"clause": "harness-error"}})
+        return fails
     for k, r in enumerate(impl["rows"]):
         c, u = r["c"], r["u"]
         same_ret = c == u or (r.get("settled") and c.startswith("ret:"))
@@ -1030,6 +1122,6 @@ def _trigger(case, impl, k):
 
 
 def shrink_candidates(case):
-    ops = case["ops"]
+    ops = case.get("ops", [])
     for i in range(len(ops)):
         yield {**case, "ops": ops[:i] + ops[i + 1:]}
